@@ -9,16 +9,14 @@
   `dflt = none` when it was recorded for a present member through mergeForField.
 -/
 import VM.Impl.Schema
+import VM.Spec.Post
 namespace VM.Post
 open VM Impl
 
 abbrev Pos := List String
 
-structure Entry where
-  pos : Pos
-  field : String
-  dflt : Option JVal
-  deriving Inhabited
+/-- the same record the specification uses for "schema `dflt?` describes member `field` of the object at `pos`" -/
+abbrev Entry := Spec.Applies
 
 /-- entry builders of a built sub-validator: position → data → entries -/
 abbrev E := Pos → JVal → List Entry
